@@ -32,8 +32,14 @@ MODULES = {
     'keys': dict(src='keys.rs', drop_clone=['Mapping', 'Repeat']),
     'key_transforms': dict(src='key_transforms.rs', n2=True, n4=True),
     'fancy_keys': dict(src='fancy_keys.rs', structural=['Row'], move_display=True),
-    'fancy_layout_interpreting': dict(src='fancy_layout_interpreting.rs', n1=True,
+    'fancy_layout_interpreting': dict(src='fancy_layout_interpreting.rs', n1=True, n5=True, drop_clone=['FromSet'],
                                       n3=['iterate_combinations']),
+    'layout_parsing_formatting': dict(src='layout_parsing_formatting.rs', pre_raw='json_stub.rs',
+                                      only=['fn parse_layout_from_json', 'fn parse_mapping_from_json', 'fn single_to_alias_from', 'enum FromKeys', 'fn parse_from', 'fn parse_from_modifiers', 'fn parse_from_modifier', 'enum FromKey', 'fn parse_from_key', 'fn parse_from_row', 'fn parse_from_key_text', 'fn parse_from_key_obj', 'enum SingleOrAliasToKeys', 'fn parse_single_or_alias_to', 'fn parse_single_to', 'fn parse_row_to', 'enum SingleOrAliasToTerminal', 'fn parse_single_or_alias_to_terminal', 'fn parse_single_to_terminal', 'fn parse_row_to_terminal', 'fn parse_single_or_alias_to_text', 'fn parse_single_to_text', 'fn parse_single_or_alias_to_array', 'fn parse_single_to_array', 'fn parse_row_to_array', 'fn parse_to_initial', 'fn parse_alias_to_initial', 'fn parse_to_initial_elem', 'fn parse_row_to_obj', 'fn parse_key_code_j', 'fn parse_modifier', 'fn parse_single_repeat', 'fn parse_row_repeat', 'fn parse_single_repeat_keys', 'fn parse_row_repeat_keys', 'fn parse_repeat_delay_ms', 'fn parse_repeat_interval_ms', 'fn parse_absorbing', 'fn has_exactly_keys', 'fn has_at_least_keys'],
+                                      stubs=['fn format_mapping', 'fn mapping_all_used_aliases', 'fn keys_string', 'fn parse_row', 'fn parse_key_code'],
+                                      uses=['use crate::key_codes::KeyCode;', 'use crate::serde_json;', 'use crate::serde_json::{Value, Map};', 'use crate::serde_json::Value::{Object, Array};',
+                                            'use crate::fancy_keys::{Layout, Mapping, SingleMapping, AliasMapping, RowMapping, Modifier, SingleFromKeys, RowFromKeys, SingleToKeys, RowToKeys, SingleTerminalToKey, SingleRepeat, RowRepeat, Row, AliasToKeys, AliasFromKeys, RepeatOnlySingleMapping};',
+                                            'use crate::serde_json::Value as j;']),
     'physical_keyboard_layouts': dict(src='physical_keyboard_layouts.rs', only=[], uses=['use crate::{fancy_keys::Row, key_codes::KeyCode};']),
     'char_production_map': dict(src='char_production_map.rs', only=['struct SinkKey'], uses=['use crate::keys::KeyCode;']),
     'remapping_loop': dict(src='remapping_loop.rs', only=['enum WorkingRepeat', 'enum Device', 'enum PollResult',
@@ -57,6 +63,7 @@ def extract(name, text, log):
     if cfg.get('n2'): text = n2_retain(text, log)
     if cfg.get('n3'): text = n3_for_user_iter(text, log, cfg['n3'])
     if cfg.get('n4'): text = n4_iter_any(text, log)
+    if cfg.get('n5'): text = n5_iter_map_collect(text, log)
     return text
 
 
@@ -154,14 +161,35 @@ def assemble_module(asm, name, with_contracts=True):
     ann_by = {it['key']: it for it in ann_items}
     cur_by = {it['key']: it for it in cur_items}
 
+    if cfg.get('pre_raw'):
+        l0 = asm.line(); raw = open(os.path.join(SPEC, cfg['pre_raw'])).read(); asm.add(raw if raw.endswith('\n') else raw + '\n')
+        asm.items.append(dict(module='prelude', key=cfg['pre_raw'], line_start=l0, line_end=asm.line() - 1, annotated=True, changed_tokens=0))
+        asm.log.append('%s: ASSUMED declarations of a dependency emitted from spec/%s' % (name, cfg['pre_raw']))
     asm.add('pub mod %s {\nuse vstd::prelude::*;\n' % name)
     moved_out = []
     body = []
     only = cfg.get('only')
     if only is not None:
+        # E4 closure: helper functions of the same file that the selected items call (directly or through other helpers) are part of the text too -
+        # a change that moves part of a selected function into a new helper must not make the unit unbuildable
+        only = list(only); fn_items = {it['key'][3:]: it for it in cur_items if it['key'].startswith('fn ')}
+        grew = True
+        while grew:
+            grew = False
+            sel_text = ' '.join(mask(it['text']) for it in cur_items if it['key'] in only)
+            for fname, it in fn_items.items():
+                if it['key'] not in only and it['key'] not in cfg.get('stubs', ()) and re.search(r'\b' + re.escape(fname) + r'\s*\(', sel_text):
+                    only.append(it['key']); grew = True
+                    asm.log.append('%s: E4 closure: helper `%s` is called by the extracted items and is extracted with them' % (name, it['key']))
         for u in cfg.get('uses', []): body.append((None, u + '\n', False, 0))
     for it in cur_items:
         k = it['key']
+        if k in cfg.get('stubs', ()):
+            # E6: a function outside the verified text that the verified text calls is represented by its real signature only
+            mt = mask(it['text']); b = mt.index('{')
+            body.append((k, '#[verifier::external_body]\n' + it['text'][:b].rstrip() + ' { unimplemented!() }\n', False, 0))
+            asm.log.append('%s: E6 `%s` is outside the verified text (iterator adapters / macros / derives Verus cannot take); it is represented by its signature, ASSUMED to return normally' % (name, k))
+            continue
         if only is not None and k not in only:
             continue
         if cfg.get('move_display') and k.startswith('impl Display for'):
